@@ -26,6 +26,8 @@ type Case struct {
 	// for a pair of decorations: the two single-decoration variants (a pair is only reported
 	// when neither single decoration alone shows the same kind of difference)
 	Singles []string `json:"singles,omitempty"`
+	// the base program is one the parser refuses (e.g. duplicate case labels): the variant must be refused too
+	Rejected bool `json:"rejected,omitempty"`
 }
 
 type deco struct {
@@ -39,6 +41,10 @@ var decos = []struct {
 	{"block", "/* c */", "inline"},
 	{"sharp", "# c", "inline"},
 	{"slash", "// c", "inline"},
+	{"block-stars", "/** c **/", "inline"},
+	{"block-even-close", "/* c **/", "inline"},
+	{"block-empty", "/**/", "inline"},
+	{"block-multiline", "/* c\n * d\n */", "inline"},
 	{"blank-lines", "\n\n", "raw"},
 	{"tab-spaces", "\t  ", "raw"},
 	{"newline", "\n", "raw"},
@@ -99,6 +105,46 @@ sub vcl_deliver { if (fastly_info.state ~ "^HIT") { set resp.http.X-H = "hit"; }
 `,
 }
 
+// negative base programs: they are rejected, and a comment must not make them acceptable
+var rejectedPrograms = []string{
+	`sub vcl_recv {
+  switch (req.http.A) { case "1": esi; break; case "1": esi; break; }
+}
+`,
+	`sub vcl_recv {
+  switch (req.http.A) { case ~ "^a": esi; break; case ~ "^a": esi; break; default: break; }
+}
+`,
+}
+
+func init() {
+	execPrograms = append(execPrograms, `backend b1 { .host = "example.com"; .port = "80"; }
+backend b2 { .host = "example.org"; .port = "80"; .connect_timeout = 1s; }
+backend b3 { .host = "example.net"; .port = "80"; }
+director dh hash { .quorum = 1%; { .backend = b1; .weight = 1; } { .backend = b2; .weight = 1; } { .backend = b3; .weight = 1; } }
+director dc client { .quorum = 1%; { .backend = b1; .weight = 1; } { .backend = b2; .weight = 1; } { .backend = b3; .weight = 1; } }
+ratecounter rc1 { }
+penaltybox pb1 { }
+table tbl { "k1": "v1" }
+sub vcl_recv {
+  declare local var.n INTEGER;
+  set req.http.Copy = header.get(req, "X-Req");
+  header.set(req, "X-Flag", "on");
+  header.unset(req, "X-Gone");
+  set var.n = ratelimit.ratecounter_increment(rc1, "k", 1);
+  if (ratelimit.check_rate("k", rc1, 1, 10, 100, pb1, 1m)) { set req.http.Limited = "1"; }
+  if (table.contains(tbl, "k1")) { set req.http.Has = "1"; }
+  set req.http.Re2 = regsuball(req.url, "a", "b");
+  log "recv " req.http.Copy " " req.http.X-Flag " " var.n " " req.http.Limited " " req.http.Has " " req.http.Re2;
+  if (req.url ~ "^/(c|d)") { set req.backend = dh; } else if (req.url ~ "^/(e|f)") { set req.backend = dc; } else { set req.backend = b2; }
+  return(pass);
+}
+sub vcl_hash { set req.hash += req.url; return(hash); }
+sub vcl_deliver { set resp.http.X-Backend = req.backend; return(deliver); }
+sub lint_only { set req.http.Re = regsub(req.url, req.http.Pattern, "x"); }
+`)
+}
+
 func parses(src string) bool {
 	_, err := parser.New(lexer.NewFromString(src)).ParseVCL()
 	return err == nil
@@ -106,6 +152,7 @@ func parses(src string) bool {
 
 func gen09(tier string, emit func(Case)) {
 	thorough := tier == "thorough"
+	genRejected(emit)
 	type prog struct {
 		root *gen.Node
 		kind string
@@ -175,6 +222,40 @@ func gen09(tier string, emit func(Case)) {
 	}
 }
 
+// genRejected: a program the parser refuses stays refused with a comment at any documented placeholder.
+func genRejected(emit func(Case)) {
+	for i, src := range rejectedPrograms {
+		if parses(src) {
+			panic(fmt.Sprintf("rejected program %d parses", i))
+		}
+		// tokens are taken from a parseable twin (second case label changed), then the label is put back
+		twin := strings.Replace(src, `case "1": esi; break; }`, `case "2": esi; break; }`, 1)
+		twin = strings.Replace(twin, `case ~ "^a": esi; break; default`, `case ~ "^b": esi; break; default`, 1)
+		vcl, err := parser.New(lexer.NewFromString(twin)).ParseVCL()
+		if err != nil {
+			panic(err)
+		}
+		toks := gen.Tokens(gen.FromAST(vcl.Statements))
+		back := func(v string) string {
+			v = strings.Replace(v, `"2"`, `"1"`, 1)
+			return strings.Replace(v, `"^b"`, `"^a"`, 1)
+		}
+		base := back(gen.Render(toks, gen.Layout{Newline: true}, nil))
+		for ti := range toks {
+			if len(toks[ti].Pre) == 0 {
+				continue
+			}
+			for _, d := range decos {
+				if d.role != "inline" {
+					continue
+				}
+				v := back(gen.Render(toks, gen.Layout{Newline: true}, []gen.Deco{{Index: ti, Text: d.text, Role: d.role}}))
+				emit(Case{Base: base, Variant: v, Rejected: true, Where: toks[ti].Pre[0].Name, Deco: d.name, Prog: fmt.Sprintf("rejected%d", i)})
+			}
+		}
+	}
+}
+
 func tokShape(t string) string {
 	switch {
 	case t == "":
@@ -222,7 +303,7 @@ func kindOf(root *gen.Node) string {
 func observe(src string) []string {
 	ip, _ := sim.NewServer(src)
 	var out []string
-	for _, r := range [][2]string{{"1", "/a?x=1"}, {"2", "/b"}, {"1", "/a?x=1"}} {
+	for _, r := range [][2]string{{"1", "/a?x=1"}, {"2", "/b"}, {"1", "/a?x=1"}, {"1", "/c"}, {"1", "/d"}, {"1", "/e"}, {"1", "/f"}, {"1", "/g"}, {"1", "/h"}, {"1", "/i"}, {"1", "/j"}} {
 		o := sim.Observe(ip, "GET", "http://example.com"+r[1], [][2]string{{"X-Req", r[0]}})
 		if o.Panic != "" {
 			out = append(out, "PANIC "+strings.SplitN(o.Panic, "\n", 2)[0])
@@ -285,6 +366,20 @@ func run1(c Case) engine.Result {
 		return engine.Result{Skipped: true}
 	}
 	cls := func(what string) string { return what + "|" + c.Where + "|" + c.Deco }
+	if c.Rejected {
+		if parses(c.Base) {
+			return engine.Result{Skipped: true}
+		}
+		if parses(c.Variant) {
+			_, berr := parser.New(lexer.NewFromString(c.Base)).ParseVCL()
+			return engine.Result{NonTrivial: true, Outcome: "accepted", Findings: []engine.Finding{{
+				Class:  cls("accepted"),
+				What:   fmt.Sprintf("the program is rejected (%v) but accepted once decoration %s is put at %s", berr, c.Deco, c.Where),
+				Detail: map[string]string{"base": c.Base, "variant": c.Variant},
+			}}}
+		}
+		return engine.Result{NonTrivial: true, Outcome: "still-rejected"}
+	}
 	if !parses(c.Variant) {
 		if c.Must {
 			_, err := parser.New(lexer.NewFromString(c.Variant)).ParseVCL()
@@ -337,7 +432,7 @@ func init() {
 	engine.Register(engine.Spec[Case]{
 		ID:    "C09",
 		Level: "exploration",
-		Rule: "base programs = every statement/declaration derivation within 1 deviation (lint half) + 3 executable lifecycle programs (simulator half, 3 requests each through ServeHTTP with a stub backend); variants = each of 6 decorations (/* c */, # c, // c, blank lines, tab+spaces, newline) in every gap between two consecutive tokens, one gap at a time (thorough / executable programs: pairs of gaps within a statement); a variant at a documented placeholder must parse, elsewhere an unparseable variant is skipped; oracle: multiset of (rule, severity, message) and the fatal error equal to the base program's, and flows/logs/restarts/response identical; non-trivial = variant parses and differs from base; distinct = distinct (base, variant)",
+		Rule: "base programs = every statement/declaration derivation within 1 deviation (lint half) + 4 executable lifecycle programs (incl. ID-typed function arguments, a non-literal regex pattern, hash and client directors) (simulator half, 11 requests each through ServeHTTP with a stub backend); variants = each of 10 decorations (/* c */, # c, // c, /** c **/, /* c **/, /**/, a multi-line block comment, blank lines, tab+spaces, newline) in every gap between two consecutive tokens, one gap at a time (thorough / executable programs: pairs of gaps within a statement); a variant at a documented placeholder must parse; 2 programs the parser refuses (duplicate case labels) must stay refused with a comment at any placeholder; elsewhere an unparseable variant is skipped; oracle: multiset of (rule, severity, message) and the fatal error equal to the base program's, and flows/logs/restarts/response identical; non-trivial = variant parses and differs from base; distinct = distinct (base, variant)",
 		Gen:  gen09,
 		Key:  func(c Case) string { return c.Base + "\x00" + c.Variant },
 		Run:  run,
